@@ -10,6 +10,11 @@ Theorem C10_tiling_sum : forall plen, fold_right (fun bl acc => snd bl + acc) 0 
                                       Forall (fun bl => 0 < snd bl <= 16384) (left_blocks plen).
 Proof. intros plen. destruct (tiles_sum _ _ _ (left_blocks_tiles plen)) as [A B]. split; [lia | exact B]. Qed.
 
+(* and the relation admits no other block list: "cover the piece exactly once, every block but the last 16 KiB" has
+   exactly one solution, the one the client computes *)
+Theorem C10_tiling_unique : forall plen l, Tiles 0 plen l -> l = left_blocks plen.
+Proof. exact left_blocks_is_the_tiling. Qed.
+
 (* a new assignment: the requests written name that piece and are the first (at most two) blocks of the
    tiling; asked ++ not-yet-asked is the tiling *)
 Theorem C10_assignment : forall cf int i plen r a, new_piece_request cf int i plen = (r, a) ->
@@ -63,3 +68,4 @@ Print Assumptions C10_assignment.
 Print Assumptions C10_next.
 Print Assumptions C10_assignment_invariant.
 Print Assumptions C10_answer.
+Print Assumptions C10_tiling_unique.
